@@ -411,7 +411,9 @@ use open_hypergraphs::lax::var::forget::{forget, forget_monogamous};
 use open_hypergraphs::lax::var::{build, fn_operation, operation, HasAdd, HasBitAnd, HasBitXor, HasMul, HasNeg, HasNot, HasVar, Var};
 
 /// edge labels of the Var test signature (a newtype so that the operator traits can be
-/// implemented for it): 99 is the variable label
+/// implemented for it): 99 is the variable label.  The result type of a binary operator depends on
+/// BOTH operand types (add/mul widen to the maximum, `&` takes the right type, `^` mixes them), the
+/// same table as `binResLabel` in Model/DriverOptic.lean
 #[derive(Clone, Copy, Debug, PartialEq)]
 pub struct Op(pub usize);
 pub const VAR: usize = 99;
@@ -421,13 +423,13 @@ impl HasVar for Op {
     }
 }
 impl HasAdd<usize, Op> for Op {
-    fn add(a: usize, _b: usize) -> (usize, Op) {
-        (a, Op(ADD))
+    fn add(a: usize, b: usize) -> (usize, Op) {
+        (a.max(b), Op(ADD))
     }
 }
 impl HasMul<usize, Op> for Op {
-    fn mul(a: usize, _b: usize) -> (usize, Op) {
-        (a, Op(MUL))
+    fn mul(a: usize, b: usize) -> (usize, Op) {
+        (a.max(b), Op(MUL))
     }
 }
 impl HasNeg<usize, Op> for Op {
@@ -436,13 +438,13 @@ impl HasNeg<usize, Op> for Op {
     }
 }
 impl HasBitXor<usize, Op> for Op {
-    fn bitxor(a: usize, _b: usize) -> (usize, Op) {
-        (a, Op(7))
+    fn bitxor(a: usize, b: usize) -> (usize, Op) {
+        ((a + 2 * b) % 3, Op(7))
     }
 }
 impl HasBitAnd<usize, Op> for Op {
-    fn bitand(a: usize, _b: usize) -> (usize, Op) {
-        (a, Op(6))
+    fn bitand(_a: usize, b: usize) -> (usize, Op) {
+        (b, Op(6))
     }
 }
 impl HasNot<usize, Op> for Op {
